@@ -166,10 +166,21 @@ def datetime_add_shape(ctx, rule: str = "ADD") -> None:
     fn = m.func("DateTime.add")
     prm = core.params(fn)
     ctx.ob(f"{rule}.signature", "DateTime.add", prm == ADD_PARAMS, f"parameters {prm}", m.loc(fn))
-    # classification
-    cl = core.assigns_to(fn, "units_of_variable_length")
-    if len(cl) != 1:
+    # classification: the local defined as any([...]) / `a or b ...` over parameters of add()
+    cvar = None
+    cl = []
+    for n in core.body_no_doc(fn):
+        if isinstance(n, ast.Assign) and len(n.targets) == 1 and isinstance(n.targets[0], ast.Name):
+            v = n.value
+            names_in = {x.id for x in ast.walk(v) if isinstance(x, ast.Name)}
+            is_any = isinstance(v, ast.Call) and nun(v.func) in ("any", "bool")
+            is_or = isinstance(v, ast.BoolOp) and isinstance(v.op, ast.Or)
+            if (is_any or is_or) and names_in & set(prm):
+                cvar, cl = n.targets[0].id, [v]
+                break
+    if cvar is None:
         ctx.unverified(f"{rule}.classify", "DateTime.add", "classification variable not found", m.loc(fn))
+        cvar = "units_of_variable_length"
     else:
         e = cl[0]
         names = None
@@ -200,7 +211,7 @@ def datetime_add_shape(ctx, rule: str = "ADD") -> None:
         if ex[1] != "return":
             continue
         ret = core.strip_casts(ex[2].value)
-        var = p.holds("units_of_variable_length")
+        var = p.holds(cvar)
         if not isinstance(ret, ast.Call):
             ctx.unverified(f"{rule}.exit", "DateTime.add", f"returns `{un(ret)[:60]}`", m.loc(ex[2]))
             continue
@@ -225,7 +236,7 @@ def datetime_add_shape(ctx, rule: str = "ADD") -> None:
         else:
             # fixed branch: must be reached only without calendar units and with a zone
             ctx.ob(f"{rule}.fixed-exit", "DateTime.add/fixed/guard", var is False and p.holds("self.tz is None") is False,
-                   f"UTC-arithmetic exit reached with units_of_variable_length={var}, self.tz is None="
+                   f"UTC-arithmetic exit reached with {cvar}={var}, self.tz is None="
                    f"{p.holds('self.tz is None')}; it is only valid without calendar units and with a zone", m.loc(ex[2]))
             off = p.holds("offset")
             utc = f"add_duration({naive_copy} - self.utcoffset(), {fwd})" if off is not False else None
